@@ -64,6 +64,18 @@ CHECKS = {
    text="Generated topologies (BUS full meshes and chains of 2-5 members, chains with raw BUS members forwarding through Device(s,s), STAR random trees of 2-6 cooked/raw members; inproc, tcp, ipc; one connection per pair, sending only after every planned link is Attached on both ends) with 0-20 tagged messages per member sent sequentially or concurrently. Oracle: the multiset each member receives equals a flood model (cooked BUS delivers to direct neighbours only and never forwards; a forwarding raw BUS passes a message to every peer except its arrival pipe; STAR delivers every message to every other member exactly once), nobody receives its own message, nothing is altered; a sentinel from every originator, travelling the same FIFO links, closes the observation so that 'nothing extra' needs no timeout.",
    note="Volumes stay below the queue lengths ('queue space permitting'); loop-free topologies only; interleavings of concurrent senders are sampled.",
    technique="property-based testing (rapid) over generated topologies with a reference flood model and sentinel-closed multiset comparison"),
+ "C17": dict(
+   text="A verif-tag ledger in message.go (double release, Clone/MakeUnique/Dup of a released message, write into a released pooled buffer, poison-on-release, NewMessage postcondition) runs behind generated workloads: (A) fan-out hold-and-mutate on PUB/XPUB->1-3 SUB sockets x 1-2 contexts, BUS, STAR, SURVEYOR->RESPONDENTs, PAIR, REQ/REP with 5 ms retransmissions, PAIR1 through a Device, over inproc/tcp/ipc/ws with pool-class boundary sizes: the application keeps received messages across further recycled traffic, mutates some of its own, and every held message must still equal its snapshot, be unreleased and poison-free; (B) for 12 sending constructors and outcomes timeout/closed/no-peers/best-effort/success a failed SendMsg must leave the message unreleased with its body intact and re-sendable, a successful one must deliver it; (C) NewMessage(sz) for generated and boundary sizes after dirty releases starts empty with capacity >= sz; (D) peers vanishing while large messages are written drive the transports' send error paths under the ledger.",
+   note="The ledger sees Free/Clone/MakeUnique/Dup/NewMessage; a read of a released buffer is only visible as poison (0xDB) in data that reaches an application, a write only when the buffer is re-used from the pool. Interleavings are sampled.",
+   technique="property-based testing (rapid) with an instrumented ownership ledger (build tag verif) and application-side snapshot oracles"),
+ "C18": dict(
+   text="Timed scenarios on a scripted transport for every (pattern or context kind, option) pair that the code supports: receive deadline on an empty queue (no peer, silent peer, peer leaving) must end with ErrRecvTimeout not before the deadline and within deadline+2 s, a queued message must be returned despite the deadline, no deadline must still be blocked after 150 ms and complete when a message is injected; send deadline against a full queue / back-pressuring peer likewise (message left intact and unreleased with the caller), room in the queue succeeds at once; best-effort sends return nil within 1 s in every queue/peer state and are delivered at most once; fail-no-peers returns ErrNoPeers at once without peers and when the last peer leaves during the wait, and does not fire while a peer is connected.",
+   note="Real time: lower bounds are exact (Go timers never fire early on the monotonic clock), upper bounds are generous (deadline + 2 s, 'immediately' = 1 s), 'completes at once' is reported only when it fails in 3 consecutive executions of the same case. Built by a sub-agent to the harness conventions and reviewed; push/xpush with WRITEQ-LEN=0 is excluded (C02 finding).",
+   technique="property-based testing (rapid) of timed scenarios over a virtual transport with exact lower-bound and generous upper-bound timing oracles"),
+ "C19": dict(
+   text="Uniform-contract search: a deterministic cross product of 106 objects (24 constructors fresh and connected, contexts, dialers and listeners of 6 transports before/after use, option maps, pipes) x 51 option names (all documented constants, ws and ipc specials, arbitrary strings) x 35 typed boundary values, each Set/Get guarded against panics and hangs and compared with an option table derived from the documentation and code (result class bad-option / bad-value / accepted, Go type, read-back of accepted values); generated Set/Get sequences against a model of last accepted values; inheritance of socket options by dialers, listeners, pipes and new contexts; metamorphic 'zero means no limit' effects for deadlines, retry and survey time; queue length n admits n messages; queue-length changes with full and idle queues must cause no Detached event and leave the connection delivering; unsupported operations (Recv on PUB/PUSH, Send on SUB/PULL, OpenContext on 19 constructors) return ErrProtoOp without side effect; Device over all 25x25 socket pairs returns ErrClosed/ErrBadProto/ErrNotRaw/nil per its contract and starts nothing on refusal.",
+   note="Cells the documentation leaves open (negative retry/survey/reconnect/keep-alive durations, negative MAX-RCV-SIZE on transport endpoints, non-positive deadlines on rep/respondent, typed-nil TLS config) accept either outcome. Queue lengths above 65536 are not generated. Known findings: negative deadlines block although documented non-blocking; xbus disconnects and xstar stalls on a READQ-LEN change with a full queue. Built by a sub-agent to the harness conventions and reviewed.",
+   technique="exhaustive enumeration of the option-name x value-type cross product plus property-based testing (rapid) of option sequences, inheritance, metamorphic effect checks and resize scenarios"),
 }
 
 ALL = ["C%02d" % i for i in range(1, 21)]
